@@ -217,8 +217,11 @@ def r032(prog, chk):
             res = _returned_name(m)
             sites = [st for st, t, v in subscript_stores(m) if isinstance(t.value, ast.Name) and t.value.id == res]
         else:
+            # the charset append and every other per-glyph append made in a loop
             sites = [c for c in calls_named(m, "append") if isinstance(c.func.value, ast.Attribute) and c.func.value.attr == sink]
-            sites += [c for c in calls_named(m, "append") if isinstance(c.func.value, ast.Name) and "charStringsIndex" == c.func.value.id]
+            need(sites, f"cannot interpret {m.short}: charset emission not found")
+            sites += [c for c in calls_named(m, "append") if c not in sites
+                      and any(isinstance(a, ast.For) for a in prog.ix.ancestors(c))]
         need(sites, f"cannot interpret {m.short}: per-glyph emission not found")
         for s in sites:
             n += 1
@@ -464,3 +467,55 @@ def r036(prog, chk):
     chk.ob("R03.6", key(fi, "both-branches"), seen_default and seen_nondefault, where(fi), detail="both encodings present",
            message="one of the two UVS encodings is missing")
     chk.minimum("R03.6", 3)
+
+
+# ------------------------------------------------------------------- self-validation corpus
+from ..selftest import M  # noqa: E402
+
+MUTANTS = [
+    M("duplicate code point: later glyph silently wins", "ufo2ft/util.py", "makeUnicodeToGlyphNameMapping",
+      "if uni not in mapping:\n    mapping[uni] = glyphName\nelse:\n    raise InvalidFontData(\"cannot map '%s' to U+%04X; already mapped to '%s'\" % (glyphName, uni, mapping[uni]))",
+      "mapping[uni] = glyphName", rule="R03.1"),
+    M("duplicate code point: first glyph silently wins", "ufo2ft/util.py", "makeUnicodeToGlyphNameMapping",
+      "raise InvalidFontData(\"cannot map '%s' to U+%04X; already mapped to '%s'\" % (glyphName, uni, mapping[uni]))",
+      "pass", rule="R03.1"),
+    M("compile() wraps the outline stage in a catch-all that logs and continues", "ufo2ft/outlineCompiler.py", "BaseOutlineCompiler.__init__",
+      "self.unicodeToGlyphNameMapping = self.makeUnicodeToGlyphNameMapping()",
+      "try:\n    self.unicodeToGlyphNameMapping = self.makeUnicodeToGlyphNameMapping()\nexcept Exception:\n    self.unicodeToGlyphNameMapping = {}",
+      rule="R03.1e"),
+    M("TTF maxp counts the glyph set instead of the glyph order", "ufo2ft/outlineCompiler.py", "OutlineTTFCompiler.setupTable_maxp",
+      "maxp.numGlyphs = len(self.glyphOrder)", "maxp.numGlyphs = len(self.allGlyphs)", rule="R03.2"),
+    M("CFF charset emitted in glyph-set order", "ufo2ft/outlineCompiler.py", "OutlineOTFCompiler.setupTable_CFF",
+      "self.glyphOrder", "list(self.allGlyphs)", rule="R03.2"),
+    M("glyph order computed before .notdef is synthesised", "ufo2ft/outlineCompiler.py", "BaseOutlineCompiler.__init__",
+      "self.makeMissingRequiredGlyphs(font, glyphSet, self.sfntVersion, notdefGlyph)\nself.allGlyphs = glyphSet\nif glyphOrder is None:\n    glyphOrder = font.glyphOrder\nself.glyphOrder = self.makeOfficialGlyphOrder(glyphOrder)",
+      "self.allGlyphs = glyphSet\nif glyphOrder is None:\n    glyphOrder = font.glyphOrder\nself.glyphOrder = self.makeOfficialGlyphOrder(glyphOrder)\nself.makeMissingRequiredGlyphs(font, glyphSet, self.sfntVersion, notdefGlyph)",
+      rule="R03.3"),
+    M("custom notdefGlyph path forgets to insert it", "ufo2ft/outlineCompiler.py", "BaseOutlineCompiler.makeMissingRequiredGlyphs",
+      "notdefGlyph = _copyGlyph(notdefGlyph, reverseContour=reverseContour)",
+      "notdefGlyph = _copyGlyph(notdefGlyph, reverseContour=reverseContour)\nreturn", rule="R03.3"),
+    M("duplicate names in glyphOrder are appended twice", "ufo2ft/util.py", "makeOfficialGlyphOrder",
+      "if name not in names:\n    continue\nnames.remove(name)\norder.append(name)",
+      "if name not in font:\n    continue\nnames.discard(name)\norder.append(name)", rule="R03.4"),
+    M("remaining glyphs appended unsorted", "ufo2ft/util.py", "makeOfficialGlyphOrder",
+      "order.extend(sorted(names))", "order.extend(names)", rule="R03.4"),
+    M(".notdef kept where glyphOrder lists it", "ufo2ft/util.py", "makeOfficialGlyphOrder",
+      "if '.notdef' in names:\n    names.remove('.notdef')\n    order.append('.notdef')", "pass", rule="R03.4"),
+    M("U+FFFF treated as supplementary", "ufo2ft/outlineCompiler.py", "BaseOutlineCompiler.setupTable_cmap",
+      "k > 65535", "k >= 65535", rule="R03.5"),
+    M("format 12 subtables lack the BMP mappings", "ufo2ft/outlineCompiler.py", "BaseOutlineCompiler.setupTable_cmap",
+      "nonBMP.update(mapping)", "pass", rule="R03.5"),
+    M("format 4 subtable receives the full mapping", "ufo2ft/outlineCompiler.py", "BaseOutlineCompiler.setupTable_cmap",
+      "cmap4_3_1.cmap = mapping", "cmap4_3_1.cmap = dict(self.unicodeToGlyphNameMapping)", rule="R03.5"),
+    M("UVS default/non-default inverted", "ufo2ft/outlineCompiler.py", "BaseOutlineCompiler.setupTable_cmap",
+      "glyphName == mapping[value]", "glyphName != mapping[value]", rule="R03.6"),
+    # equivalent edits
+    M("early-raise form of the duplicate check", "ufo2ft/util.py", "makeUnicodeToGlyphNameMapping",
+      "if uni not in mapping:\n    mapping[uni] = glyphName\nelse:\n    raise InvalidFontData(\"cannot map '%s' to U+%04X; already mapped to '%s'\" % (glyphName, uni, mapping[uni]))",
+      "if uni in mapping:\n    raise InvalidFontData('duplicate')\nmapping[uni] = glyphName", kind="equiv"),
+    M("discard instead of remove", "ufo2ft/util.py", "makeOfficialGlyphOrder",
+      "names.remove(name)", "names.discard(name)", kind="equiv"),
+    M("membership test inverted with nested if", "ufo2ft/util.py", "makeOfficialGlyphOrder",
+      "if name not in names:\n    continue\nnames.remove(name)\norder.append(name)",
+      "if name in names:\n    names.remove(name)\n    order.append(name)", kind="equiv"),
+]
